@@ -619,6 +619,46 @@ impl<T> Block for NoCopyFileSink<T>""")]),
     dict(name="c5r8+macro-output-clamp-dropped", prop="C19", expect="C19.R2:",
          patch="/verif/neutral_seeded/c5-r8/patch.diff", edits=[],
          post_edits=[E("rustradio_macros/src/lib.rs", "let n = [#(#out_names.len()),*].iter().copied().fold(n_in, usize::min);", "let n = n_in;")]),
+    dict(name="d1r9+flags-start-private", prop="C18", expect="C18.R6:circular_buffer::Map::with_addr:flags",
+         patch="/verif/neutral_seeded/d1-r9/patch.diff", edits=[],
+         post_edits=[E("src/circular_buffer.rs", "        let mut flags = MAP_SHARED;", "        let mut flags = libc::MAP_PRIVATE;")]),
+    dict(name="d1r9+wrapper-addr-rounded", prop="C18", expect="C18.R9:circular_buffer::Map::with_addr:mmap-addr",
+         patch="/verif/neutral_seeded/d1-r9/patch.diff", edits=[],
+         post_edits=[E("src/circular_buffer.rs", "unsafe { Self::mmap_rw(ptr, len, flags, fd) }",
+                       "unsafe { Self::mmap_rw(((ptr as usize) & !4095) as *mut c_void, len, flags, fd) }")]),
+    dict(name="d1r9+wrong-place-not-unmapped", prop="C18", expect="C18.R2:circular_buffer::Map::with_addr:mmap",
+         patch="/verif/neutral_seeded/d1-r9/patch.diff", edits=[],
+         post_edits=[E("src/circular_buffer.rs", "        match unsafe { libc::munmap(buf, len as size_t) } {", "        match 0 {")]),
+    dict(name="d3r9+end-of-pass-no-seek", prop="C16", expect="C16.R14:file_source::FileSource::end_of_pass:again()->restart",
+         patch="/verif/neutral_seeded/d3-r9/patch.diff", edits=[],
+         post_edits=[E("src/file_source.rs", "        self.f.seek(std::io::SeekFrom::Start(0))?;\n        // This is not quite", "        // This is not quite")]),
+    dict(name="d3r9+read-data-not-truncated", prop="C14", expect="C14.R13:",
+         patch="/verif/neutral_seeded/d3-r9/patch.diff", edits=[],
+         post_edits=[E("src/sigmf.rs", "    buffer.truncate(n);\n", "")]),
+    dict(name="d3r9+tcp-fresh-is-whole-buffer", prop="C14", expect="C14.R",
+         patch="/verif/neutral_seeded/d3-r9/patch.diff", edits=[],
+         post_edits=[E("src/tcp_source.rs", "            n => &buffer[..n],", "            _ => &buffer[..],")]),
+    dict(name='d2r9+consumable-min-is-ntaps', prop='C09', expect='C09.R',
+         patch="/verif/neutral_seeded/d2-r9/patch.diff", edits=[],
+         post_edits=[E('src/fir.rs', '            return Err(absolute_minimum);', '            return Err(self.ntaps);')]),
+    dict(name='d2r9+pad-output-no-produce', prop='C08', expect='C08.R',
+         patch="/verif/neutral_seeded/d2-r9/patch.diff", edits=[],
+         post_edits=[E('src/delay.rs', '            o.produce(n, &[]);\n            self.current_delay -= n;', '            self.current_delay -= n;')]),
+    dict(name='d2r9+float-copy-consumes-all', prop='C08', expect='C08.R16',
+         patch="/verif/neutral_seeded/d2-r9/patch.diff", edits=[],
+         post_edits=[E('src/fft_filter.rs', '            inner_from.consume(n);', '            let all = inner_from.len();\n            inner_from.consume(all);')]),
+    dict(name='d4r9+header-wait-one-less', prop='C09', expect='C09.R4',
+         patch="/verif/neutral_seeded/d4-r9/patch.diff", edits=[],
+         post_edits=[E('src/au.rs', 'return Ok(BlockRet::WaitForStream(&self.src, header_rest_len));', 'return Ok(BlockRet::WaitForStream(&self.src, header_rest_len - 1));')]),
+    dict(name='d4r9+data-odd-n', prop='C08', expect='C08.R',
+         patch="/verif/neutral_seeded/d4-r9/patch.diff", edits=[],
+         post_edits=[E('src/au.rs', 'let n = input.len().min(out.len() * 2) & !1;', 'let n = input.len().min(out.len() * 2);')]),
+    dict(name='d4r9+write-flushed-no-flush', prop='C17', expect='C17.R',
+         patch="/verif/neutral_seeded/d4-r9/patch.diff", edits=[],
+         post_edits=[E('src/file_sink.rs', '    writer.write_all(bytes)?;\n    writer.flush()', '    writer.write_all(bytes)')]),
+    dict(name='d4r9+overwrite-no-truncate', prop='C17', expect='C17.R',
+         patch="/verif/neutral_seeded/d4-r9/patch.diff", edits=[],
+         post_edits=[E('src/file_sink.rs', 'Mode::Overwrite => opts.write(true).create(true).truncate(true),', 'Mode::Overwrite => opts.write(true).create(true),')]),
     dict(name="m4r5+macro-no-take", prop="C08", expect="C08.R1:",
          patch="/verif/neutral_seeded/m4-r5/patch.diff", edits=[],
          post_edits=[E("rustradio_macros/src/lib.rs", "#zipped_inputs.take(n).enumerate()", "#zipped_inputs.enumerate()")]),
